@@ -63,6 +63,8 @@ MUTANTS["C01"] = [
      "        key = Op.ADDED if diff.get(Op.ADDED) else Op.MOVED\n        yield (True, diff[key][0][\"row\"], diff[key][0][\"children\"] if key == Op.ADDED else None)"),
     ("ignore_case-lowercases-every-sibling", "annet/annlib/rulebook/common.py", "        new_row = row\n        if diff_pre[row][\"match\"][\"attrs\"][\"ignore_case\"]:\n            new_row = row.lower()", "        new_row = row.lower()"),
     ("huawei-order-undo-mtu-after-everything", "annet/rulebook/texts/huawei.order", "    ~\n    poe\n", "    ~\n    poe\n    undo mtu  %order_reverse\n"),
+    ("nokia-ordered-rules-get-the-default-diff", "annet/vendors/library/nokia.py", '        return "juniper.ordered_diff" if order else "juniper.default_diff"', '        return "juniper.default_diff"'),
+    ("permanent-row-without-children-resent", "annet/annlib/rulebook/common.py", '        if not diff[Op.REMOVED][0]["children"]:\n            return\n        # Если у него есть потомки', '        # Если у него есть потомки'),
 ]
 
 MUTANTS["C01"] += [
